@@ -379,6 +379,11 @@ def one_schema(ctx, res, case, pending, per):
             if in_model and label in ("dict", "positional") and not (feat & {"nil"}):
                 op = dict(op="bind.call", tag="root", pos=[to_arg(a) for a in args], kw=[[k, to_arg(v)] for k, v in kw.items()], **bf)
                 pending.append((op, kind, out, c))
+                if label == "dict":
+                    # what the call denotes (ZeepModel/Xsd/Denote.lean): the schema against zeep's compiled type, the
+                    # instance against the model's decode of what zeep rendered
+                    DENOTE.append((dict(op="bind.denote", kw=[[k, to_arg(v)] for k, v in kw.items()], ty=case.model_type(8), **bf),
+                                   {"op": "xsd.parse", "mode": "strict", "ty": ty, "node": xmlcanon.node(out, strip_ws=True)}, c))
 
         if feat & {"nil"}:
             continue          # corruption sites below are computed on plain-dict calls without markers
@@ -439,7 +444,78 @@ def one_schema(ctx, res, case, pending, per):
                 pending.append((op, kind, out, c))
 
 
+DENOTE = []
+
+
+def strip_item_ns(j):
+    """expanded names of attributes without their namespace (the binder model has local names only)"""
+    if isinstance(j, dict):
+        out = {}
+        for k, v in j.items():
+            if k == "attrs":
+                out[k] = sorted([[None, a[0][1]], a[1]] for a in v)      # attribute order carries no information
+            else:
+                out[k] = strip_item_ns(v)
+        return out
+    if isinstance(j, list):
+        return [strip_item_ns(x) for x in j]
+    return j
+
+
+def norm_item(j):
+    """instances modulo what the decoder cannot see at the end of its input: trailing members of a round that contribute
+    nothing have no instance, and a round without any instance is no round (outside the theorem's WTItemR both ways)"""
+    if isinstance(j, dict):
+        if "seq" in j and len(j) == 1:
+            rounds = []
+            for r in j["seq"]:
+                r = [norm_item(i) for i in r]
+                while r and r[-1] in ({"elems": []}, {"seq": []}):
+                    r.pop()
+                if r:
+                    rounds.append(r)
+            return {"seq": rounds}
+        out = {k: norm_item(v) for k, v in j.items()}
+        if out == {"attrs": [], "content": {"seq": []}, "raw": []}:
+            return {"none": []}          # known finding K8: an empty complex element decodes to None (outside WTItemR)
+        return out
+    if isinstance(j, list):
+        return [norm_item(x) for x in j]
+    return j
+
+
+def compare_denotation(ctx, res):
+    if not (ctx.model and DENOTE):
+        del DENOTE[:]
+        return
+    den = ctx.model.run([d[0] for d in DENOTE])
+    dec = ctx.model.run([d[1] for d in DENOTE])
+    n = 0
+    for (dop, pop, c), a, b in zip(DENOTE, den, dec):
+        if "err" in a or "err" in b:
+            res.disagreements.append(dict(relation="driver error (bind.denote / xsd.parse)", case=c, model=[a, b]))
+            continue
+        a, b = a["ok"], b["ok"]
+        if not (a["no_nillable"] and a["no_nil"]):
+            res.count("denote:outside-theorem(nillable)")
+            continue
+        n += 1
+        res.count("denote:compared")
+        if not a["ty_matches"]:
+            res.disagreements.append(dict(relation="Denote.toTy (signature) vs the type zeep compiled", case=c, model="toTy differs from dump_type"))
+        elif "error" in b:
+            res.disagreements.append(dict(relation="model decode of zeep's rendering of an accepted call", case=c, model=b))
+        elif strip_item_ns(a["item"]) == strip_item_ns(b["item"]):
+            res.count("denote:literally-equal")
+        elif norm_item(strip_item_ns(a["item"])) != norm_item(strip_item_ns(b["item"])):
+            res.disagreements.append(dict(relation="Denote.itemOf (arguments) vs model decode of what zeep rendered", case=c,
+                                          model=json.dumps(strip_item_ns(a["item"]))[:500], impl=json.dumps(strip_item_ns(b["item"]))[:500]))
+    res.extra["denotations_compared"] = n
+    del DENOTE[:]
+
+
 def compare_model(ctx, res, pending):
+    compare_denotation(ctx, res)
     if not (ctx.model and pending):
         return
     outs = ctx.model.run([p[0] for p in pending])
